@@ -33,9 +33,15 @@ VARIABLES ctx, prog, ill, phase
 gvars == << ctx, prog, ill, phase, vm >>
 
 NGen == Len(prog) - Len(Prelude)                    \* statements generated so far
-Term(x, v, d, n) == [x |-> x, v |-> v, d |-> d, n |-> n]
+(* cl ("clean"): no sub-term evaluates to an error in its scope, even where   *)
+(* short-circuiting or an untaken arm hides it, and both sides of && / || are  *)
+(* boolean - the programs C07 quantifies over (nothing a static checker could  *)
+(* legitimately object to)                                                     *)
+Worse(a, b) == IF a = "dirty" \/ b = "dirty" THEN "dirty" ELSE IF a = "union" \/ b = "union" THEN "union" ELSE "clean"
+Term(x, v, d, n, cl) == [x |-> x, v |-> v, d |-> d, n |-> n, cl |-> cl]
 Ctx(kind, scope, base, ps, last) ==
   [kind |-> kind, scope |-> scope, stk |-> << >>, stmts |-> << >>, base |-> base, ps |-> ps, last |-> last,
+   cl |-> "clean",  \* worst of the finished statements of this context: clean / union / dirty
    used |-> 0]      \* nodes spent on finished statements / parameters of this (module) context
 
 Cur == ctx[Len(ctx)]
@@ -65,6 +71,14 @@ Join(k, x) ==
       d    == 1 + MaxOf([j \in 1..k |-> kids[j].d])
       n    == 1 + SumOf([j \in 1..k |-> kids[j].n])
       fresh == v.t = "err" /\ \A j \in 1..k : kids[j].v.t # "err"
+      cl0 == /\ v.t # "err" /\ \A j \in 1..k : kids[j].cl # "dirty"
+             /\ (x.e = "bin" /\ x.op \in {"and", "or"}) => \A j \in 1..k : kids[j].v.t = "bool"
+      (* "uniform" selects: string/boolean selector, all arms and the default of one *)
+      (* type - a select of mixed types is valid and evaluates, but it is where the   *)
+      (* checker's union shapes come from; the flag keys that recorded finding        *)
+      uni == x.e = "select" => /\ kids[1].v.t \in {"str", "bool"}
+                               /\ \A j \in 2..k : kids[j].v.t = kids[2].v.t
+      cl == IF ~cl0 THEN "dirty" ELSE IF uni /\ (\A j \in 1..k : kids[j].cl = "clean") THEN "clean" ELSE "union"
       rest == SubSeq(c.stk, 1, Len(c.stk) - k)
       (* every further term on the stack costs at least one more join node *)
       budget == n + SumOf([j \in 1..Len(rest) |-> rest[j].n]) + Len(rest) + OuterCost
@@ -76,7 +90,7 @@ Join(k, x) ==
      /\ v.t # "unm" /\ d <= MaxD /\ budget <= MaxN
      /\ fresh => ill > 0
      /\ ill' = IF fresh THEN ill - 1 ELSE ill
-     /\ SetCur([c EXCEPT !.stk = Append(SubSeq(@, 1, Len(@) - k), Term(x, v, d, n))])
+     /\ SetCur([c EXCEPT !.stk = Append(SubSeq(@, 1, Len(@) - k), Term(x, v, d, n, cl))])
      /\ UNCHANGED << prog, phase, vm >>
 
 Building == phase = "gen"
@@ -122,6 +136,24 @@ MkDotName == On("dot") /\ Building /\ Len(Stk) >= 1 /\
              \E j \in 1..Len(FldNames) : Join(1, Bin("dot", TopT(1).x, Sym(FldNames[j])))
 MkDotIdx == On("dot") /\ Building /\ Len(Stk) >= 1 /\
             \E i \in 0..1 : Join(1, Bin("dot", TopT(1).x, Lit(IntV(i))))
+(* `base.f(args)` and `base.t{overrides}`: call / copy through a tuple field *)
+MkDotCall == On("dotcall") /\ Building /\
+             \E k \in 0..2 : Len(Stk) >= k + 1 /\
+                LET b == Stk[Len(Stk) - k]
+                IN b.v.t = "tuple" /\
+                   \E j \in 1..Len(b.v.fs) :
+                      /\ b.v.fs[j].val.t = "func" /\ Len(b.v.fs[j].val.ps) = k
+                      /\ Join(k + 1, Bin("dot", b.x, [e |-> "call", fn |-> b.v.fs[j].nm,
+                                                      args |-> [q \in 1..k |-> Stk[Len(Stk) - k + q].x]]))
+MkDotCopy == On("dotcopy") /\ Building /\
+             \E k \in 0..1 : Len(Stk) >= k + 1 /\
+                LET b == Stk[Len(Stk) - k]
+                IN b.v.t = "tuple" /\
+                   \E j \in 1..Len(b.v.fs) : \E off \in 0..(Len(FldNames) - k) :
+                      /\ b.v.fs[j].val.t \in {"tuple", "module"}
+                      /\ Join(k + 1, Bin("dot", b.x, [e |-> "copy", sel |-> b.v.fs[j].nm,
+                                                      flds |-> [q \in 1..k |-> [nm |-> FldNames[off + q],
+                                                                               ex |-> Stk[Len(Stk) - k + q].x]]]))
 MkRange == On("range") /\ Building /\
            \/ Len(Stk) >= 2 /\ Join(2, [e |-> "range", lo |-> TopT(2).x, step |-> << >>, hi |-> TopT(1).x])
            \/ Len(Stk) >= 3 /\ Join(3, [e |-> "range", lo |-> TopT(3).x, step |-> << TopT(2).x >>, hi |-> TopT(1).x])
@@ -193,7 +225,7 @@ CloseFunc == On("func") /\ Building /\ Cur.kind = "func" /\ Len(Stk) = 1 /\
                  b == c.stk[1]
                  x == [e |-> "func", ps |-> c.ps, body |-> b.x]
                  par == ctx[Len(ctx) - 1]
-                 t == Term(x, FuncV(c.ps, b.x, c.base), b.d + 1, b.n + 1)
+                 t == Term(x, FuncV(c.ps, b.x, c.base), b.d + 1, b.n + 1, b.cl)
              IN /\ t.d <= MaxD /\ t.n <= MaxN
                 /\ ctx' = [SubSeq(ctx, 1, Len(ctx) - 1) EXCEPT ![Len(ctx) - 1].stk = Append(@, t)]
                 /\ UNCHANGED << prog, ill, phase, vm >>
@@ -215,7 +247,8 @@ CloseMod == On("module") /\ Building /\ Cur.kind = "mod" /\ Len(Stk) <= 1 /\ Len
                 x == [e |-> "module", ps |-> c.ps, out |-> out, body |-> c.stmts]
                 par == ctx[Len(ctx) - 1]
                 v == EvalE(x, par.scope, << >>)
-                t == Term(x, v, 2, 1 + c.used + (IF Len(c.stk) = 1 THEN c.stk[1].n ELSE 0))
+                t == Term(x, v, 2, 1 + c.used + (IF Len(c.stk) = 1 THEN c.stk[1].n ELSE 0),
+                          IF Len(c.stk) = 1 THEN Worse(c.cl, c.stk[1].cl) ELSE c.cl)
              IN /\ ~Bad(v) /\ t.n <= MaxN
                 /\ Len(par.stk) < MaxStk
                 /\ ctx' = [SubSeq(ctx, 1, Len(ctx) - 1) EXCEPT ![Len(ctx) - 1].stk = Append(@, t)]
@@ -234,11 +267,11 @@ MkLet == (IF Cur.kind = "mod" THEN On("module") ELSE On("let")) /\ Building /\ S
                   ok == ~Bad(t.v)
               IN /\ IF c.kind = "top"
                       THEN /\ prog' = Append(prog, st)
-                           /\ SetCur([c EXCEPT !.stk = << >>, !.last = j,
+                           /\ SetCur([c EXCEPT !.stk = << >>, !.last = j, !.cl = Worse(@, t.cl),
                                                !.scope = IF ok THEN Append(@, Fld(pool[j], t.v)) ELSE @])
                            /\ phase' = IF ok THEN "gen" ELSE "closing"      \* nothing runs after a failing statement
                       ELSE /\ SetCur([c EXCEPT !.stk = << >>, !.last = j, !.stmts = Append(@, st),
-                                               !.used = @ + t.n + 1,
+                                               !.used = @ + t.n + 1, !.cl = Worse(@, t.cl),
                                                !.scope = IF ok THEN Append(@, Fld(pool[j], t.v)) ELSE @])
                            /\ UNCHANGED << prog, phase >>
                  /\ UNCHANGED << ill, vm >>
@@ -268,7 +301,7 @@ MkLetUse == On("letuse") /\ Building /\ Cur.kind = "top" /\ Len(Stk) = 1 /\ NGen
                     IN /\ (t.v.t = "func" => ~ov) /\ (ov => t.x.ps # << >>)
                        /\ ~IsUnm(v2)
                        /\ prog' = prog \o << st1, [s |-> "let", nm |-> n2, x |-> use] >>
-                       /\ SetCur([c EXCEPT !.stk = << >>, !.last = c.last + 2,
+                       /\ SetCur([c EXCEPT !.stk = << >>, !.last = c.last + 2, !.cl = IF Bad(v2) THEN "dirty" ELSE Worse(@, t.cl),
                                            !.scope = IF Bad(v2) THEN sc1 ELSE Append(sc1, Fld(n2, v2))])
                        /\ phase' = IF Bad(v2) THEN "closing" ELSE "gen"
                /\ UNCHANGED << ill, vm >>
@@ -277,13 +310,13 @@ MkLetUse == On("letuse") /\ Building /\ Cur.kind = "top" /\ Len(Stk) = 1 /\ NGen
 MkBadLet == On("badlet") /\ Building /\ Cur.kind = "top" /\ Len(Stk) = 1 /\ NGen < MaxStmts /\
             \E nm \in {Cur.scope[j].nm : j \in 1..Len(Cur.scope)} \cup (IF On("reserved") THEN Reserved ELSE {}) :
                /\ prog' = Append(prog, [s |-> "let", nm |-> nm, x |-> Cur.stk[1].x])
-               /\ SetCur([Cur EXCEPT !.stk = << >>])
+               /\ SetCur([Cur EXCEPT !.stk = << >>, !.cl = "dirty"])
                /\ phase' = "closing"
                /\ UNCHANGED << ill, vm >>
 
 MkExprStmt == On("exprstmt") /\ Building /\ Cur.kind = "top" /\ Len(Stk) = 1 /\ NGen < MaxStmts /\
               /\ prog' = Append(prog, [s |-> "expr", x |-> Cur.stk[1].x])
-              /\ SetCur([Cur EXCEPT !.stk = << >>])
+              /\ SetCur([Cur EXCEPT !.stk = << >>, !.cl = Worse(@, Cur.stk[1].cl)])
               /\ phase' = IF Bad(Cur.stk[1].v) THEN "closing" ELSE "gen"
               /\ UNCHANGED << ill, vm >>
 
@@ -300,7 +333,7 @@ GenInit == /\ ctx = << Ctx("top", Run(Prelude).env, << >>, << >>, 0) >>
            /\ vm = InitVM(<< >>, Deviations)
 
 GenNext == \/ PushLit \/ PushVar \/ MkOuterRef \/ MkLeakRef \/ MkFwdRef \/ MkBin \/ MkNot \/ MkTrace \/ MkFail \/ MkCast \/ MkIs \/ MkInName
-           \/ MkList \/ MkTuple \/ MkDotName \/ MkDotIdx \/ MkRange \/ MkSelect \/ MkCall \/ MkBadCall
+           \/ MkList \/ MkTuple \/ MkDotName \/ MkDotIdx \/ MkDotCall \/ MkDotCopy \/ MkRange \/ MkSelect \/ MkCall \/ MkBadCall
            \/ MkCopy \/ MkFmtList \/ MkFmtBad \/ MkFmtSingle \/ MkFop \/ OpenFunc \/ CloseFunc \/ OpenMod \/ CloseMod
            \/ MkLet \/ MkLetUse \/ MkBadLet \/ MkExprStmt \/ Finish \/ RunStep \/ RunEnd
 
@@ -335,7 +368,7 @@ Emit == Done =>
   LET cf == CodeRun(KnownDevs)
       hit == IF VMOut(cf) = Expected THEN {} ELSE {d \in KnownDevs : VMOut(CodeRun({d})) # Expected}
   IN PrintT(<< "REPLAY", ToJson([prog |-> prog, expect |-> Expected, code |-> VMOut(cf),
-                                 devs |-> SetToSeq(hit),
+                                 devs |-> SetToSeq(hit), clean |-> ctx[1].cl,
                                  prefix |-> [k \in 1..(Len(prog) - 1) |-> AbsOut(Run(SubSeq(prog, 1, k)))],
                                  ops |-> [j \in 1..Len(vm.code) |-> OpView(vm.code[j])],
                                  pos |-> [j \in 1..Len(vm.code) |-> vm.code[j].p],
